@@ -41,8 +41,47 @@ def _rot_arg(case):
     return [Rotation.from_matrix(np.array(m, dtype=float)) for m in case["rots"]]
 
 
+# templates that share a common body and differ by a small bright DOMAIN each (for masks computed FROM the templates by a
+# function: the common mask of a multi-template search must see every template's own domain)
+_DOMAINS = ([(4, 4, 0), (4, 3, 0)], [(0, 4, 4), (1, 4, 4)], [(4, 0, 4), (4, 0, 3)], [(0, 0, 0), (0, 0, 1)])
+
+
+def dom_template(j: int) -> np.ndarray:
+    t = asym_template(0).copy()
+    lo = 2
+    for dom in _DOMAINS:
+        for v in dom:
+            t[lo + v[0], lo + v[1], lo + v[2]] = 0.0
+    for v in _DOMAINS[j]:
+        t[lo + v[0], lo + v[1], lo + v[2]] = 7.0
+    return t
+
+
+def _thr_mask(t):
+    """An intensity-dependent mask function: neighbourhood of the brightest voxels of the image it is given."""
+    from scipy import ndimage as ndi
+
+    t = np.asarray(t)
+    return ndi.binary_dilation(t >= 0.9 * t.max(), iterations=3).astype(np.float32)
+
+
+def _mask_form(cfg):
+    T, K, j, k = cfg["T"], cfg["K"], cfg["j"], cfg["k"]
+    h = j + k + T + K + len(cfg["d"])
+    if 2 <= T <= len(_DOMAINS) and cfg["driver"] in ("model", "loader_multi", "loader_stack") and h % 4 == 0:
+        return "function"
+    return "array" if h % 2 == 1 else "none"
+
+
+def _templates(cfg):
+    if _mask_form(cfg) == "function":
+        return [dom_template(t) for t in range(cfg["T"])]
+    return [asym_template(t) for t in range(cfg["T"])]
+
+
 def _subvolume(case, j, k, d):
-    tmpl = asym_template(j)
+    cfg = case["cfg"]
+    tmpl = _templates(cfg)[j] if j < cfg["T"] else asym_template(j)
     return apply_rot24(tmpl, np.array(case["rots"][k]), d)
 
 
@@ -63,7 +102,7 @@ def _replay(case) -> dict:
     cfg = case["cfg"]
     T, K, j, k = cfg["T"], cfg["K"], cfg["j"], cfg["k"]
     d = case["shift"]
-    templates = [asym_template(t) for t in range(T)]
+    templates = _templates(cfg)
     rots = _rot_arg(case)
     cls = _model_cls(cfg["model"])
     failures = []
@@ -86,13 +125,23 @@ def _replay(case) -> dict:
     # half of the cases search with a mask that is NOT invariant under the searched rotations: the support of all the templates,
     # grown by more than the largest displacement (so it never cuts the planted density, which it follows under each candidate)
     mask = None
-    if (j + k + T + K + len(cfg["d"])) % 2 == 1:
+    mform = _mask_form(cfg)
+    if mform == "array":
         from scipy import ndimage as ndi
 
         sup = np.zeros_like(templates[0], dtype=bool)
         for t in templates:
             sup |= np.asarray(t) != 0
         mask = ndi.binary_dilation(sup, iterations=int(MAX_SHIFT) + 1).astype(np.float32)
+    elif mform == "function":
+        # the mask is a FUNCTION of the template (a callable for a model, an ImageConverter for a loader)
+        if drv in ("model", "model_range"):
+            mask = _thr_mask
+        else:
+            from acryo import pipe
+
+            mask = pipe.converter_function(lambda img, scale: _thr_mask(img))()
+    desc["mask_form"] = mform
     desc["mask"] = mask is not None
     if drv in ("model", "model_range"):
         sub = _subvolume(case, j, k, d)
@@ -358,7 +407,7 @@ def replay_with_expect(case, wrong_j):
 
     cfg = case["cfg"]
     sub = _subvolume(case, cfg["j"], cfg["k"], case["shift"])
-    templates = [asym_template(t) for t in range(cfg["T"])]
+    templates = _templates(cfg)
     model = _model_cls(cfg["model"])(templates if cfg["T"] > 1 else templates[0], rotations=_rot_arg(case))
     res = model.align(sub, (MAX_SHIFT,) * 3)
     return dict(failures=[] if int(res.label) % cfg["T"] == wrong_j else [dict(clause="Label")])
